@@ -30,7 +30,7 @@ pub static PROP: Prop = Prop {
         "only filters whose subnets were produced by IpSubnet::from_str (the configuration path) are judged",
     ],
     profiles: Profiles::Both,
-    cases: |t| t.pick(6_000, 200_000),
+    cases: |t| t.pick(40_000, 400_000),
     budget_s: |t| t.pick(30, 300),
     run,
     min_nontrivial: 40,
